@@ -252,7 +252,15 @@ Definition run_c12 (st : dstate) (xs : list sexp) : outcome :=
                             || value_deep_eqb out l || veqb out l)
                            "prop a merge that adds or changes nothing leaves L's order intact" @@
                        match mLRX, mLRXb with
-                       | TOk (Some a), TOk (Some b) => chk (veq_assoc s tr a b) "prop merge is associative up to member order"
+                       | TOk (Some a), TOk (Some b) =>
+                           (* a deep merge cannot be associative across a change of kind: in
+                              (L.R).X the scalar of R has already replaced the map of L when X
+                              brings a map again, in L.(R.X) it never appears *)
+                           let all_paths := ([] :: map fst (nodes s tr l) ++ map fst (nodes s tr r) ++ map fst (nodes s tr x))%list in
+                           let kc := existsb (fun q => kind_changed s tr l r q || kind_changed s tr r x q || kind_changed s tr l x q) all_paths in
+                           chk (veq_assoc s tr a b)
+                               (if kc then "prop merge is associative up to member order: not when one operand gives a field a value of another kind (scalar / list / map) than another operand holds there"
+                                else "prop merge is associative up to member order")
                        | _, _ => []
                        end
                      else []) @@
